@@ -383,6 +383,12 @@ def run(ctx):
         mag = digits[:1] + ''.join(rh.choice('0123456789') for _ in digits[1:]) if rh.random() < 0.5 else digits
         emit(dict(kind='stb', sign=rh.choice(['', '', '-']), mag=mag, mag_ok=True, prefix=prefix, unit=unit,
                   system=system, return_int=rh.random() < 0.5))
+    # a well-formed size followed by a line break and more text: not of the form [sign]number[prefix]unit
+    for tail in ('\nGiB', '\n7', '\nB', '\n\n', '\r\nB', '\n 1B', '\n#', '\x0bB', '\nx\n'):
+        for unit in ('B', 'b', 'bit'):
+            for prefix, system in (('K', 'SI'), ('Ki', 'IEC'), ('', 'IEC'), ('M', 'mixed')):
+                for rint in (True, False):
+                    emit(dict(kind='stb', sign='', mag='1', prefix=prefix, unit=unit + tail, system=system, return_int=rint))
     # admitted texts with thousands of digits (around the interpreter's 4300-digit int <-> str limit, which is about
     # int(), not about the grammar of the text)
     for nd in (639, 640, 641, 4299, 4300, 4301, 5000):
